@@ -72,7 +72,8 @@ func createClientSpan(op *runtime.ClientOperation, header http.Header, host stri
 	span := opentracing.SpanFromContext(ctx)
 
 	if span != nil {
-		opts = append(opts, ext.SpanKindRPCClient)
+		// opts is shared by all the calls going through the transport: never append in place
+		opts = append(opts[:len(opts):len(opts)], ext.SpanKindRPCClient)
 		span, _ = opentracing.StartSpanFromContextWithTracer(
 			ctx, span.Tracer(), operationName(op), opts...)
 
